@@ -63,8 +63,11 @@ func c14Size(r *fw.Rand, mtu int) int {
 	if s < 3 {
 		s = 3
 	}
-	if s > 60000 {
+	if s > 60000 && mtu < 32000 {
 		s = 60000
+	}
+	if s > 140000 {
+		s = 140000
 	}
 	if (mtu >= 1000 && r.Chance(1, 30)) || (mtu >= 64 && r.Chance(1, 120)) || r.Chance(1, 4000) {
 		// units beyond 64 KiB at any MTU (more than 65535 fragments at tiny MTUs): 16-bit arithmetic must not be involved
@@ -123,6 +126,9 @@ func c14Pay(c *fw.Ctx, i int) {
 		minMTU = 6
 	}
 	mtu := r.Pick(minMTU, minMTU+1, minMTU+2, minMTU+3, 10, 12, 16, 24, 40, 100, 1200, r.Range(minMTU, 48), r.Range(minMTU, 1500))
+	if r.Chance(1, 150) {
+		mtu = r.Pick(32767, 32768, 32769, 40000, 65534, 65535) // the MTU is a uint16: values with bit 15 set are ordinary
+	}
 	p := &codecs.H265Payloader{AddDONL: donl, SkipAggregation: skipAgg}
 	ncalls := r.Range(1, 2)
 	var expect [][]byte
